@@ -7,7 +7,7 @@ PROP = 'C01'
 TARGETS = ['Props/C01.vo', 'Corr/XTree.vo']
 PROPS_FILE = 'Props/C01.v'
 RULE = ('rooted trees: all ordered tree shapes with <=3 (quick) / <=4 (thorough) non-root nodes x all class assignments over '
-        '{Node, Array, PointList, PointListArray}, plus random trees (up to 40 nodes, depth <= 8, names with spaces / non-ASCII / '
+        '{Node, Array, PointList, PointListArray}, plus random trees (up to 40 nodes, depth <= 8, names with spaces / non-ASCII incl. non-NFC-normalised / '
         'look-alikes, >= 12 siblings somewhere); each is saved to a fresh file (and re-saved from the same live objects to a '
         'second file) and read back in full; non-trivial = distinct trees with at least 2 nodes below the root')
 MODELLED = ['payloads are class templates parameterised by a content token; bulk bytes are h5py business',
@@ -54,7 +54,7 @@ def cases(seed, tier):
                 out.append(scenario(root))
     n_rand = 150 if tier == 'quick' else 5000
     for i in range(n_rand):
-        root = T.rand_tree(rng, rng.choice(['root', 'r', 'my root', 'ré', 'A']), rng.choice([2, 5, 9, 14, 25, 40]))
+        root = T.rand_tree(rng, rng.choice(['root', 'r', 'my root', 'ré', 'A', 'Scho\u0308n']), rng.choice([2, 5, 9, 14, 25, 40]))
         if i % 10 == 0:   # many siblings
             for j in range(12):
                 root['kids'].append({'cls': rng.choice(cls4), 'name': 's%02d' % j, 'tok': T.fresh_tok(), 'rank': 1, 'mds': [], 'kids': []})
